@@ -117,7 +117,11 @@ def _offset_case(seed, backend):
     data = {"variant": variant, "bytes": bytes_, "packets": packets}
     kw = dict(alternative=rng.choice(meanx.ALTS), equal_var=rng.random() < 0.5, use_t=rng.random() < 0.5, confidence_level=0.9)
     try:
-        res = tt.RatioOfMeans("bytes", "packets", **kw).analyze(B.make_table(backend, data), 0, 1, "variant")
+        tab = B.make_table(backend, data)
+        if backend in ("pyarrow", "polars", "polars-lazy") and rng.random() < 0.7:
+            from props.C02 import _rechunk
+            tab = _rechunk(backend, tab, rng)        # several chunks / record batches
+        res = tt.RatioOfMeans("bytes", "packets", **kw).analyze(tab, 0, 1, "variant")
     finally:
         B.cleanup()
 
@@ -131,7 +135,45 @@ def _offset_case(seed, backend):
     return [(f"offset data on {backend}:" + f, g, w) for f, g, w in meanx.compare_result(res, ref, rtol=1e-5)]
 
 
+def handbuilt_case(seed):
+    """pre-aggregated statistics handed over as Aggregates objects whose covariance keys are written in either order:
+    RatioOfMeans gives the test on the linearised observations all the same"""
+    import random
+    import gen as G
+    import tea_tasting as tt
+    import tea_tasting.aggr as A
+    rng = random.Random(seed)
+    cols = ["sessions", "orders"]
+    rows = [[{c: float(rng.randint(1, 30)) for c in cols} for _ in range(n)] for n in (12, 15)]
+    aggs = {}
+    for v, rr in enumerate(rows):
+        n, m, var, cv = G.exact_aggr_dicts([{c: F(x) for c, x in r.items()} for r in rr], cols)
+        key = ("sessions", "orders") if rng.random() < 0.7 else ("orders", "sessions")
+        aggs[v] = A.Aggregates(count_=n, mean_={k: float(x) for k, x in m.items()}, var_={k: float(x) for k, x in var.items()},
+                               cov_={key: float(cv[("orders", "sessions")])})
+    kw = dict(alternative=rng.choice(meanx.ALTS), equal_var=rng.random() < 0.5, use_t=rng.random() < 0.5, confidence_level=0.9)
+    try:
+        res = tt.RatioOfMeans("orders", "sessions", **kw).analyze(aggs, 0, 1)
+    except Exception as e:  # noqa: BLE001
+        return [("hand-built Aggregates: raised " + type(e).__name__, str(e), "")]
+
+    def lin(rr):
+        mx = sum(r["orders"] for r in rr) / len(rr)
+        my = sum(r["sessions"] for r in rr) / len(rr)
+        return [mx / my + (r["orders"] - mx / my * r["sessions"]) / my for r in rr]
+    ref = meanx.reference_test(lin(rows[0]), lin(rows[1]), kw["alternative"], kw["equal_var"], kw["use_t"], 0.9)
+    return [("hand-built Aggregates:" + f, g, w) for f, g, w in meanx.compare_result(res, ref, rtol=1e-7)]
+
+
 def offset_oracle(ctx):
+    for _ in range(ctx.n(5, 60)):
+        seed = ctx.rng.randint(0, 10**6)
+        bad = handbuilt_case(seed)
+        ctx.evaluations += 1
+        ctx.count("oracle:hand-built-aggregates")
+        if bad:
+            ctx.violations.append({"what": "RatioOfMeans: " + bad[0][0], "detail": str(bad[:3]), "input": {"handbuilt": True, "seed": seed}})
+            break
     import backends as B
     for backend in B.KINDS:
         for _ in range(ctx.n(2, 20)):
@@ -170,6 +212,9 @@ def oracle(ctx, deep=False):
 
 
 def replay(ctx, rp):
+    if rp["input"].get("handbuilt"):
+        bad = handbuilt_case(rp["input"]["seed"])
+        return {"fails": bool(bad), "failures": [str(b) for b in bad]}
     if rp["input"].get("offset_case"):
         bad = _offset_case(rp["input"]["seed"], rp["input"]["backend"])
         return {"fails": bool(bad), "failures": [str(b) for b in bad]}
